@@ -30,7 +30,7 @@ LEVEL = {"C14": "model_checking"}
 SP = vlib.SPEC / "project"
 
 ALL_FEATURES = ["nobabel", "sameName", "refetch", "pet", "loadable", "mutation", "dupEp", "dupEpWs", "xField", "xEp", "xParse", "xParse2",
-                "xDup", "xLazy", "xType", "xDupSame"]
+                "xDup", "xLazy", "xType", "xDupSame", "xUnused3", "xMissing2", "xExtra2", "xMany"]
 TIERS = {
     "quick": dict(MaxFeat=2, PairWith=["nobabel", "xField"], FullPermFiles=3, Reps=5, DevReps=1, MaxDev=1, SwapBudget=1,
                   DemoReps=3, MaxShuf=1),
